@@ -4,7 +4,7 @@ use std::sync::atomic::{AtomicBool, AtomicU32, Ordering};
 use vcore::proptest::prelude::*;
 use vcore::{Cx, Level, Res, Session};
 
-const RULE: &str = "a case is a scenario interpreted against a real emit_otlp emitter and the scripted local collector: transport {HTTP/JSON, HTTP/protobuf, gRPC} x gzip on/off x any non-empty subset of the three signals; per signal one small 'plug' event whose request the collector holds open, then 2-9 events with 300-700 KiB (sometimes tiny or >1 MiB) string payloads that accumulate into ONE batch which emit splits into 1..5+ size-limited requests; the collector answers the n-th request of that batch by script {ack, 4xx/5xx, non-zero grpc-status in trailers or in a Trailers-Only response, bare HTTP error on gRPC, close before reading, read then close, stall past the request timeout (30 s, scaled by hook H3) without answering / after the response HEADERS / after a fragment of the response body, ack then close}; optionally one signal's endpoint is down (refused / reset / 503) for the whole case; the application ends with blocking_flush or by dropping the emitter (while batches are queued, or while a failed request waits for its back-off). Families: split (no fault), fault (1-2 scripted failures), stall, outage, drop. Non-trivial = some signal's batch needed >= 2 requests, or >= 1 request failed.";
+const RULE: &str = "a case is a scenario interpreted against a real emit_otlp emitter and the scripted local collector: transport {HTTP/JSON, HTTP/protobuf, gRPC} x gzip on/off x any non-empty subset of the three signals; per signal one small 'plug' event whose request the collector holds open, then 2-9 events with 300-700 KiB (sometimes tiny or >1 MiB) string payloads that accumulate into ONE batch which emit splits into 1..5+ size-limited requests; the collector answers the n-th request of that batch by script {ack, 4xx/5xx, non-zero grpc-status in trailers or in a Trailers-Only response, bare HTTP error on gRPC, close before reading, read then close, stall past the request timeout (30 s, scaled by hook H3) without answering / after the response HEADERS / after a fragment of the response body, wedge the whole connection (open, never answering again, reading or not, while new connections work), ack then close}; optionally one signal's endpoint is down (refused / reset / 503) for the whole case; the application ends with blocking_flush or by dropping the emitter (while batches are queued, or while a failed request waits for its back-off). Families: split (no fault), fault (1-2 scripted failures), stall, outage, drop. Non-trivial = some signal's batch needed >= 2 requests, or >= 1 request failed.";
 
 /// Bounds shrinking cost: every evaluation of a scenario costs 0.1-30 s of real time.
 struct Guard {
@@ -58,7 +58,14 @@ fn subset(min: usize) -> impl Strategy<Value = [bool; 3]> {
 
 fn fault_kind(wire: Wire, stall: bool) -> BoxedStrategy<Fault> {
     if stall {
-        return prop_oneof![Just(Fault::Stall), Just(Fault::StallAfterHeaders), Just(Fault::StallMidBody)].boxed();
+        return prop_oneof![
+            Just(Fault::Stall),
+            Just(Fault::StallAfterHeaders),
+            Just(Fault::StallMidBody),
+            Just(Fault::WedgeReading),
+            Just(Fault::WedgeSilent)
+        ]
+        .boxed();
     }
     match wire {
         Wire::HttpJson | Wire::HttpProto => prop_oneof![
@@ -69,6 +76,8 @@ fn fault_kind(wire: Wire, stall: bool) -> BoxedStrategy<Fault> {
             1 => Just(Fault::Stall),
             1 => Just(Fault::StallAfterHeaders),
             1 => Just(Fault::StallMidBody),
+            1 => Just(Fault::WedgeReading),
+            1 => Just(Fault::WedgeSilent),
         ]
         .boxed(),
         Wire::Grpc => prop_oneof![
@@ -81,6 +90,8 @@ fn fault_kind(wire: Wire, stall: bool) -> BoxedStrategy<Fault> {
             1 => Just(Fault::Stall),
             2 => Just(Fault::StallAfterHeaders),
             2 => Just(Fault::StallMidBody),
+            2 => Just(Fault::WedgeReading),
+            2 => Just(Fault::WedgeSilent),
         ]
         .boxed(),
     }
@@ -116,6 +127,14 @@ fn stream(wire: Wire, family: Family, thorough: bool) -> BoxedStrategy<Stream> {
             };
             (sizes, first, second)
                 .prop_map(|(sizes_kib, a, b)| {
+                    // a wedge belongs on the connection the acknowledged plug used: request 0 or 1
+                    let early = |mut f: FaultAt| {
+                        if matches!(f.fault, Fault::WedgeReading | Fault::WedgeSilent) {
+                            f.pos = f.pos.min(1);
+                        }
+                        f
+                    };
+                    let (a, b) = (early(a), b.map(early));
                     let mut faults = vec![a];
                     if let Some(b) = b {
                         if b.pos != a.pos {
@@ -247,6 +266,11 @@ fn main() {
             s.require("fault:grpc-stall-mid-body", if quick { 4 } else { 200 });
             s.require("fault:http1-stall-after-headers", if quick { 4 } else { 200 });
             s.require("fault:http1-stall-mid-body", if quick { 4 } else { 200 });
+            // the whole connection silent but open, new connections fine: it has to be replaced
+            s.require("fault:grpc-wedged-connection", if quick { 6 } else { 300 });
+            s.require("fault:http1-wedged-connection", if quick { 6 } else { 300 });
+            s.require("wedge:still-reading", if quick { 4 } else { 200 });
+            s.require("wedge:not-reading", if quick { 4 } else { 200 });
             s.require("outage:refused", if quick { 4 } else { 200 });
             s.require("outage:reset", if quick { 4 } else { 200 });
             s.require("outage:503", if quick { 4 } else { 200 });
@@ -256,7 +280,7 @@ fn main() {
             // (family, cases quick, cases thorough, parallel generator instances)
             let plan: [(Family, &str, u64, u64, usize); 5] = [
                 (Family::Split, "split", 20, 1200, 2),
-                (Family::Fault, "fault", 30, 1200, 4),
+                (Family::Fault, "fault", 20, 800, 6),
                 (Family::Outage, "outage", 8, 400, 2),
                 (Family::Drop, "drop", 10, 320, 2),
                 (Family::Stall, "stall", 12, 400, 1),
